@@ -13,7 +13,7 @@ B=${VERIF_BUILD:-$VERIF/.build}
 SRC=$B/src
 OUT=$B/$FLAV
 LOG=$B/log
-mkdir -p "$B" "$LOG" "$OUT"
+mkdir -p "$B" "$LOG"
 export CCACHE_DIR=${CCACHE_DIR:-$VERIF/.cache/ccache}
 export CCACHE_BASEDIR=$B
 export CCACHE_NOHASHDIR=1
@@ -37,6 +37,16 @@ case "$FLAV" in
          LDF="-fsanitize=address,undefined" ;;
   *) die "unknown flavour $FLAV" ;;
 esac
+# Coverage measurement (build/coverage.sh): every flavour becomes the same gcov build, kept apart from
+# the real ones by VERIF_BUILD.  Never used by a registered check.
+if [ "${VERIF_COVERAGE:-0}" = 1 ]; then
+  case "$B" in */.build) die "VERIF_COVERAGE needs its own VERIF_BUILD" ;; esac
+  CXX=g++; CC=gcc; FLAGS="-O0 -g0 -DNDEBUG --coverage -fprofile-update=atomic"; LDF="--coverage"
+  OUT=$B/cov; mkdir -p "$OUT"
+  [ -e "$B/$FLAV" ] || ln -s cov "$B/$FLAV"
+  FLAV=cov
+fi
+mkdir -p "$OUT"
 FLAGS="$FLAGS -DAPACHE_XALAN_C_VERIF=1 -Wno-error -w"
 
 # ---- 1. mirror (content based; files whose content changed get a fresh mtime) -------------
@@ -73,6 +83,7 @@ if [ -z "$DRV" ]; then
     asan)  DRV="xvdrv xvoom xvcont" ;;
     tsan)  DRV="xvmt" ;;
     fuzz)  DRV="xvfuzz" ;;
+    cov)   DRV="xvdrv xvoom xvcont xvmt" ;;
   esac
 fi
 INC="-I$SRC/src -I$OUT/src -I$OUT/src/xalanc/PlatformSupport -I$OUT -I$VERIF/drivers"
